@@ -275,15 +275,16 @@ theorem extensionI_none_spec (X : Rows) (m : Nat) (P : Prem) (hok : ∀ jd ∈ P
 
 /-! ### pointwise versions of the tracing step and of the path recursion -/
 
-theorem directDescr_sat {t : Tree} {X : Rows} {m : Nat} {eps : Rat} (hwf : wellFormed t X m eps = true)
+theorem directDescr_sat {t : Tree} {X : Rows} {m : Nat} {nxt : Rat → Rat} (hwf : wellFormed t X m nxt = true)
     {k p : Nat} {l r f : Int} {thr : Rat}
     (g1 : t.left[p]? = some l) (g2 : t.right[p]? = some r) (g3 : t.feature[p]? = some f)
     (g4 : t.threshold[p]? = some thr) (gl : ¬ l = -1) (hk : k = l.toNat ∨ k = r.toNat)
     (x : List Rat) (hx : x ∈ X) :
-    (directDescr t eps k thr).sat (x.getD f.toNat 0) = (descend t x 1 p == k) := by
-  obtain ⟨hlen, heps, hnode⟩ := wf_parts hwf
+    (directDescr t nxt k thr).sat (x.getD f.toNat 0) = (descend t x 1 p == k) := by
+  obtain ⟨hlen, hnode⟩ := wf_parts hwf
   have hpn : p < t.n := by rw [← hlen]; exact (List.getElem?_eq_some_iff.mp g1).1
   obtain ⟨a1, a3, a6, a7, a8, _, a10, _, a12⟩ := wfNode_internal (hnode p hpn) g1 g2 g3 g4 gl
+  have heps := wfNode_lt (hnode p hpn) g1 g2 g3 g4 gl
   have hne : l.toNat ≠ r.toNat := by
     have := hnode p hpn
     simp only [wfNode, g1, g2, g3, g4] at this
@@ -303,15 +304,15 @@ theorem directDescr_sat {t : Tree} {X : Rows} {m : Nat} {eps : Rat} (hwf : wellF
     · rw [if_neg hx', decide_eq_false hx']; simp [Ne.symm hne]
   · subst e
     simp only [directDescr, a12, Bool.false_eq_true, if_false]
-    rw [sat_right thr eps _ heps (a8 x hx)]
+    rw [sat_right thr (nxt thr) _ heps (a8 x hx)]
     by_cases hx' : x.getD f.toNat 0 ≤ thr
     · rw [if_pos hx', decide_eq_true hx']; simp [hne]
     · rw [if_neg hx', decide_eq_false hx']; simp
 
-theorem path_contains_step {t : Tree} {X : Rows} {m : Nat} {eps : Rat} (hwf : wellFormed t X m eps = true)
+theorem path_contains_step {t : Tree} {X : Rows} {m : Nat} {nxt : Rat → Rat} (hwf : wellFormed t X m nxt = true)
     {k p : Nat} (hp : parentOf t k = some p) (x : List Rat) :
     (pathFrom t x t.n 0).contains k = ((descend t x 1 p == k) && (pathFrom t x t.n 0).contains p) := by
-  obtain ⟨hlen, _, hnode⟩ := wf_parts hwf
+  obtain ⟨hlen, hnode⟩ := wf_parts hwf
   obtain ⟨_, hrlen⟩ := wf_parts2 hwf
   obtain ⟨l, r, f, thr, g1, g2, g3, g4, gl, hpn, hpk, _⟩ := node_of_parent hlen hrlen hnode hp
   rw [Bool.eq_iff_iff]
@@ -344,13 +345,13 @@ theorem row_mem {X : Rows} {g : Nat} (hg : g < nObjects X) : X.getD g [] ∈ X :
 def NodeOK (t : Tree) (X : Rows) (m : Nat) (k : Nat) (P : Prem) : Prop :=
   premOK m P ∧ ∀ x ∈ X, premSat P x = (pathFrom t x t.n 0).contains k
 
-theorem parseLoop_ok {t : Tree} {X : Rows} {m : Nat} {eps : Rat} (hwf : wellFormed t X m eps = true)
+theorem parseLoop_ok {t : Tree} {X : Rows} {m : Nat} {nxt : Rat → Rat} (hwf : wellFormed t X m nxt = true)
     (hfit : fitted t X = true) (hpar : ∀ k, 0 < k → k < t.n → (parentOf t k).isSome) :
     ∀ (len k0 : Nat) (dps ps : List Prem), 0 < k0 → k0 + len ≤ t.n → ps.length = k0 →
       (∀ j < k0, ∃ P, ps[j]? = some P ∧ NodeOK t X m j P) →
-      ∃ dps' ps', parseLoop t m eps (List.range' k0 len) dps ps = .ok (dps', ps') ∧
+      ∃ dps' ps', parseLoop t m nxt (List.range' k0 len) dps ps = .ok (dps', ps') ∧
         ps'.length = k0 + len ∧ ∀ j < k0 + len, ∃ P, ps'[j]? = some P ∧ NodeOK t X m j P := by
-  obtain ⟨hlen, heps, hnode⟩ := wf_parts hwf
+  obtain ⟨hlen, hnode⟩ := wf_parts hwf
   obtain ⟨_, hrlen⟩ := wf_parts2 hwf
   intro len
   induction len with
@@ -369,14 +370,14 @@ theorem parseLoop_ok {t : Tree} {X : Rows} {m : Nat} {eps : Rat} (hwf : wellForm
     have hw := row_mem hg
     have hkc' : (pathFrom t (X.getD g []) t.n 0).contains k0 = true := by simpa using hgk
     rw [path_contains_step hwf hp, Bool.and_eq_true] at hkc'
-    have hdw : (directDescr t eps k0 thr).sat ((X.getD g []).getD f.toNat 0) = true := by
+    have hdw : (directDescr t nxt k0 thr).sat ((X.getD g []).getD f.toNat 0) = true := by
       rw [directDescr_sat hwf g1 g2 g3 g4 gl hkc _ hw]; exact hkc'.1
-    have hdne : directDescr t eps k0 thr ≠ .none := by
+    have hdne : directDescr t nxt k0 thr ≠ .none := by
       unfold directDescr; split <;> simp
-    obtain ⟨P', hacc, hok', hsem'⟩ := accumulate_spec m f (directDescr t eps k0 thr) (X.getD g [])
+    obtain ⟨P', hacc, hok', hsem'⟩ := accumulate_spec m f (directDescr t nxt k0 thr) (X.getD g [])
       a6 a7 hdne hdw Pp hokp (by rw [hsemp _ hw]; exact hkc'.2)
     -- the recursive call
-    obtain ⟨dps', ps', h1, h2, h3⟩ := ih (k0 + 1) (dps ++ [[(f, directDescr t eps k0 thr)]]) (ps ++ [P'])
+    obtain ⟨dps', ps', h1, h2, h3⟩ := ih (k0 + 1) (dps ++ [[(f, directDescr t nxt k0 thr)]]) (ps ++ [P'])
       (by omega) (by omega) (by simp [hl]) (by
         intro j hj
         by_cases hjk : j < k0
@@ -413,7 +414,7 @@ theorem dictLast_isSome {xs : List Int} {k : Nat} (h : (k : Int) ∈ xs) : (dict
     cases hmem
 
 /-- every non-root node is somebody's child, so the parent dictionaries find a parent -/
-theorem parents_exist {t : Tree} {X : Rows} {m : Nat} {eps : Rat} (hwf : wellFormed t X m eps = true) :
+theorem parents_exist {t : Tree} {X : Rows} {m : Nat} {nxt : Rat → Rat} (hwf : wellFormed t X m nxt = true) :
     ∀ k, 0 < k → k < t.n → (parentOf t k).isSome = true := by
   intro k hk0 hkn
   have hcount : ((t.left ++ t.right).filter fun c => c == (k : Int)).length = 1 := by
@@ -468,11 +469,11 @@ theorem deltas_total (t : Tree) : ∀ ks : List Nat,
     exact ⟨(t.value[k] - t.value[p]) :: ds, by simp only [List.map_cons, hp, deltas, h1, h2, hds]⟩
 
 /-- `parse` succeeds, and every accumulated premise is well-formed and describes exactly its node's rows -/
-theorem parse_ok {t : Tree} {X : Rows} {m : Nat} {eps : Rat} (hwf : wellFormed t X m eps = true)
+theorem parse_ok {t : Tree} {X : Rows} {m : Nat} {nxt : Rat → Rat} (hwf : wellFormed t X m nxt = true)
     (hfit : fitted t X = true) :
-    ∃ r, parse t m eps = .ok r ∧ r.premises.length = t.n ∧
+    ∃ r, parse t m nxt = .ok r ∧ r.premises.length = t.n ∧
       ∀ j < t.n, ∃ P, r.premises[j]? = some P ∧ NodeOK t X m j P := by
-  obtain ⟨hlen, _, hnode⟩ := wf_parts hwf
+  obtain ⟨hlen, hnode⟩ := wf_parts hwf
   obtain ⟨hn, hrlen⟩ := wf_parts2 hwf
   have hpar := parents_exist hwf
   have hmem1 : ∀ k ∈ nodes1 t, 0 < k ∧ k < t.n := by
